@@ -10,7 +10,8 @@ CONSTANTS
   PThr = 2
   SimPm = 750
   AsymThrPm = 2000
-  Age = -1
+  Age = 2
+  AgeIsMax = TRUE
   MinObs = 1
   MaxT = 2
   MaxOps = 2
